@@ -51,7 +51,8 @@ class TU(object):
         for d in root.get("inner", []):
             if d.get("kind") == "FunctionDecl":
                 has_body = any(i.get("kind") == "CompoundStmt" for i in d.get("inner", []))
-                if has_body and d.get("name") in heads:
+                macro_made = "expansionLoc" in (d.get("loc") or {}) and not (d.get("name") or "").startswith(("_Py", "Py", "_"))
+                if has_body and (d.get("name") in heads or macro_made):
                     self.funcs[d["name"]] = Func(d)
                 elif not has_body:
                     self.protos[d.get("name")] = d
@@ -100,6 +101,35 @@ def load(repo, rel):
     return _CACHE[key]
 
 
+def _load_worker(args):
+    root, rel = args
+    from .repo import Repo
+    r = Repo(root)
+    try:
+        tu = TU(r, rel)
+        return rel, tu, r.consulted, None
+    except AnalysisError as e:
+        return rel, None, {}, str(e)
+
+
+def preload(repo, rels):
+    """Parse several translation units in parallel processes (clang + JSON decoding dominate the cost)."""
+    todo = [rel for rel in rels if (repo.root, rel) not in _CACHE]
+    if len(todo) < 2:
+        return
+    try:
+        import multiprocessing
+        ctx = multiprocessing.get_context("fork")
+        with ctx.Pool(min(len(todo), 8)) as pool:
+            for rel, tu, consulted, err in pool.map(_load_worker, [(repo.root, rel) for rel in todo]):
+                if err:
+                    raise AnalysisError(err)
+                _CACHE[(repo.root, rel)] = tu
+                repo.consulted.update(consulted)
+    except (OSError, ImportError):
+        pass
+
+
 class Func(object):
     def __init__(self, decl):
         self.decl = decl
@@ -107,6 +137,7 @@ class Func(object):
         self.params = [i for i in decl.get("inner", []) if i.get("kind") == "ParmVarDecl"]
         self.body = [i for i in decl.get("inner", []) if i.get("kind") == "CompoundStmt"][0]
         self._cfg = None
+        self._calls = None
 
     def cfg(self):
         if self._cfg is None:
@@ -114,7 +145,9 @@ class Func(object):
         return self._cfg
 
     def calls(self):
-        return [(callee(c), c) for c in walk(self.body) if c.get("kind") == "CallExpr"]
+        if getattr(self, "_calls", None) is None:
+            self._calls = [(callee(c), c) for c in walk(self.body) if c.get("kind") == "CallExpr"]
+        return self._calls
 
 
 def walk(node):
